@@ -70,9 +70,10 @@ func oldPageWritten(f *flushInfo, k int) bool {
 
 func checkC04(c *core.Ctx) []core.Floor {
 	c.Level = "fault_enumeration"
-	c.Rule = "seeded DDL/DML histories with explicit (timer-equivalent) flushes, CREATE TABLE's flush, close's flush, the flush of a CREATE DATABASE issued in mid-history (one run in three) and recovery's own flush; a crash image is taken immediately before EVERY page write and before the header write of EVERY flush (page order = the engine's map iteration order, each history is executed several times to observe different orders). Each image is recovered in a fresh process; every acknowledged table must be exact (a table whose CREATE was in flight is not judged). Second level: crash images are recovered with the hooks armed, giving images inside recovery's own flush. Images of one class are recorded but not judged (known finding, DESIGN.md): a flush that carries a page allocated since the last completed header write, cut after at least one write of a page that existed before (a cut after writes of new pages only leaves the old tree untouched and is judged). Distinct = image; non-trivial = at least one page of the flush had been written and at least one write was still missing."
+	c.Rule = "seeded DDL/DML histories with explicit (timer-equivalent) flushes, CREATE TABLE's flush, close's flush, the flush of a CREATE DATABASE issued in mid-history (one run in three) and recovery's own flush; a crash image is taken immediately before EVERY page write and before the header write of EVERY flush (page order = the engine's map iteration order, each history is executed several times to observe different orders). Each image is recovered in a fresh process; every acknowledged table must be exact (a table whose CREATE was in flight is not judged). Second level: crash images are recovered with the hooks armed, giving images inside recovery's own flush. Images of one class are recorded but not judged (known finding, DESIGN.md): a flush that carries a page allocated since the last completed header write, cut after at least one write of a page that existed before (a cut after writes of new pages only leaves the old tree untouched and is judged). Independently of the hooks, one history in ten (six in the thorough tier) is re-run under strace once per write call it makes on the data file, strace delivering SIGKILL on entry to that call (crash points at system-call level: a write that bypasses the hooked call sites is a crash point here all the same); what is left is recovered and judged in the same way. Distinct = image; non-trivial = at least one page of the flush had been written and at least one write was still missing."
 	c.Assume = []string{"process-death crash model (completed writes survive; no torn page writes)", "page orders are those the engine produced in the executed runs; orders never produced are not explored"}
 	drv := mustDriver(c, false)
+	straceOK = straceWorks(c, drv)
 	n, reps := 150, 3
 	if os.Getenv("C04_N") != "" {
 		n, _ = strconv.Atoi(os.Getenv("C04_N"))
@@ -106,7 +107,11 @@ func checkC04(c *core.Ctx) []core.Floor {
 	core.ParallelFor(len(hists)*reps, c.Workers, func(i int) {
 		runFlushCrashHist(c, drv, hists[i/reps], i%reps)
 	})
-	return []core.Floor{
+	floors := []core.Floor{}
+	if straceOK {
+		floors = append(floors, core.Floor{Key: "syscall_kills", Min: 200}, core.Floor{Key: "images_syscall_kill_timer_middle", Min: 10}, core.Floor{Key: "images_syscall_kill_timer_header", Min: 10})
+	}
+	return append(floors, []core.Floor{
 		{Key: "images_verified", Min: 2000},
 		{Key: "images_timer_first", Min: 10}, {Key: "images_timer_middle", Min: 10}, {Key: "images_timer_header", Min: 10},
 		{Key: "images_create_first", Min: 10}, {Key: "images_create_middle", Min: 10}, {Key: "images_create_header", Min: 10},
@@ -114,7 +119,7 @@ func checkC04(c *core.Ctx) []core.Floor {
 		{Key: "images_recovery_first", Min: 5}, {Key: "images_recovery_middle", Min: 5}, {Key: "images_recovery_header", Min: 5},
 		{Key: "flushes_with_root_move", Min: 1}, {Key: "second_level_images", Min: 20},
 		{Key: "judged_images", Min: 1000},
-	}
+	}...)
 }
 
 func position(f *flushInfo, k int) string {
@@ -342,6 +347,44 @@ func runFlushCrashHist(c *core.Ctx, drv string, ch *crashHist, rep int) {
 		}
 	}
 	jobs = append(jobs, jobs2...)
+	// crash points at the level of system calls (strace delivers the kill):
+	// independent of the hooks, so a write the hooks do not see is a crash
+	// point here all the same
+	every, maxKills := 10, 150
+	if !core.Quick(c) {
+		every, maxKills = 6, 500
+	}
+	if straceOK && rep == 0 && ch.name != "internal-root-split" && ch.idx%every == 0 {
+		kops := make([]proto.Op, len(s.ops))
+		copy(kops, s.ops)
+		firstStmt := -1
+		for k := range kops {
+			switch kops[k].K {
+			case "arm", "disarm", "dump":
+				kops[k] = proto.Op{K: "stats", ID: kops[k].ID}
+			case "stmt":
+				if firstStmt < 0 {
+					firstStmt = k
+				}
+			}
+		}
+		flushByOp := map[int]*flushInfo{}
+		for _, f := range flushes {
+			if f.trigger != "createdb" {
+				flushByOp[f.op] = f
+			}
+		}
+		sk := syscallKillsTbl(c, drv, dir, ch, kops, firstStmt, flushByOp, lastStmtAt,
+			func(last int) []*model.DB { return []*model.DB{snaps[last]} },
+			func(op int) string {
+				if mt[op].kind == "stmt" && ch.stmts[mt[op].i].Kind == "create" {
+					return ch.stmts[mt[op].i].Table
+				}
+				return ""
+			}, stmtTexts, maxKills)
+		c.Count("histories_re_run_under_strace", 1)
+		jobs = append(jobs, sk...)
+	}
 	verifyCrashJobs(c, "C04", drv, dir, jobs)
 	for _, j := range jobs {
 		if j.classSig == "" {
